@@ -83,6 +83,20 @@ class Sandbox:
             os.makedirs(os.path.dirname(p), exist_ok=True)
             with open(p, "wb") as f:
                 f.write(data)
+        # decoys for the two spellings that depend on process state: another directory called "root" below another working
+        # directory, and another package of the same name further along sys.path; apps built from them earlier in the process
+        # must not influence the apps under test
+        self.decoy = os.path.join(self.parent, "decoy")
+        for base in (os.path.join(self.decoy, "root"), os.path.join(self.decoy, "c07pkg", "root")):
+            for rel, data in ROOT_TREE.items():
+                p = os.path.join(base, rel)
+                if data is None:
+                    os.makedirs(p, exist_ok=True)
+                else:
+                    os.makedirs(os.path.dirname(p), exist_ok=True)
+                    with open(p, "wb") as f:
+                        f.write(b"DECOY:" + data)
+        open(os.path.join(self.decoy, "c07pkg", "__init__.py"), "w").close()
         self.cwd0 = os.getcwd()
         if not _HOOKED:
             sys.addaudithook(_hook)
@@ -103,11 +117,18 @@ class Sandbox:
             from baize import wsgi as W0, asgi as A0
             args, kw = (self.root,), None
         elif spelling == "relative":
+            os.chdir(self.decoy)
+            self.earlier = [W.Files("root"), W.Pages("root"), A.Files("root"), A.Pages("root")]  # same text, other working directory
             os.chdir(self.dir)
             args, kw = ("root",), {}
         else:
-            sys.path.insert(0, self.parent)
             import importlib
+            sys.path.insert(0, self.decoy)
+            importlib.invalidate_caches()
+            self.earlier = [W.Files("root", package="c07pkg"), W.Pages("root", package="c07pkg"), A.Files("root", package="c07pkg"), A.Pages("root", package="c07pkg")]
+            sys.path.remove(self.decoy)
+            sys.modules.pop("c07pkg", None)
+            sys.path.insert(0, self.parent)
             importlib.invalidate_caches()
             args, kw = ("root",), {"package": "c07pkg"}
         try:
